@@ -9,6 +9,10 @@ Helper lemmas for Props/ComposeTables2.lean (continuation of Lemmas/LoadedTables
                              (`TQ.symTabFor`: symbol, linked string and hash section made resident): a table the C09
                              readers can read (`SymTab.Wf`) standing for the image's bytes; the hash section is the
                              ready section `hashIdx img i`
+  `load_secs_cls`            every section of the object `load` leaves carries the object's class (any input)
+  `DynPrefix.*`              the dynamic accessor on a section WITHOUT data (`getEntry_nodata`: one fabricated DT_NULL
+                             entry or none) and with a data-less linked string section (`getEntry_str`: answers like
+                             an accessor without string section)
   `TQSound.*`                soundness of the FIXED hash walks of Model/TableQuery.lean (`TQ.hashLookup`,
                              `TQ.gnuLookupT`, `TQ.hashPhase`) and the linear-scan characterisation of `TQ.getByName`
                              (the counterpart of `C09.lookup_name` for the code as it is after fixes/11..13)
@@ -622,5 +626,262 @@ theorem load_secs_cls (o : Obj) (st : IStream) (isLazy : Bool) (r : LoadRes) (h 
   · split at h
     · exact hfail _ _ rfl h
     · exact loadAfterHdr_cls _ _ _ _ _ _ rfl r h
+
+/-! ### the dynamic accessor on sections of a truncated file -/
+namespace DynPrefix
+open DynAcc
+
+theorem acc_eta (a : DynAcc) : ({ a with sec := a.sec } : DynAcc) = a := by cases a; rfl
+
+/-- `get_entry` behind its index test on a dynamic section WITHOUT data: the record fabricated by the first guard of
+    `generic_get_entry_dyn` (`tag = DT_NULL; value = 0`), whatever the index; the accessor is not changed -/
+theorem getEntryCore_nodata (a : DynAcc) (hs : Settled a.sec) (hd : a.sec.data = none) (count idx : BitVec 64) :
+    getEntryCore a count idx = .ok (a, if count.toNat ≤ idx.toNat then .invalid else .ok 0 0 []) := by
+  unfold getEntryCore
+  have hg : a.sec.getData = a.sec := getData_of_settled hs
+  by_cases hv : count.toNat ≤ idx.toNat
+  · have g0 : dyn_get_index_invalid idx count = true := by
+      simp only [dyn_get_index_invalid, BitVec.ule, decide_eq_true_eq]; exact hv
+    simp only [g0, if_true, hv]; rfl
+  · have g0 : dyn_get_index_invalid idx count = false := by
+      simp only [dyn_get_index_invalid, BitVec.ule, decide_eq_false_iff_not]; exact hv
+    have hraw : rawEntryOn (dyn_get_is32 (classByte a.cfg.cls)) a.cfg.enc a.sec idx = .ok (0, 0) := by
+      unfold rawEntryOn
+      rw [hd]
+      cases dyn_get_is32 (classByte a.cfg.cls) <;>
+        simp only [dyn32_get_nodata, dyn64_get_nodata, Option.isNone_none, Bool.true_or, if_true,
+          Bool.false_eq_true, if_false, DynTie.fabAt_eq] <;> rfl
+    have hst : dyn_get_is_string_tag 0 = false := by decide
+    simp only [g0, Bool.false_eq_true, if_false, hg, hraw, bind, Except.bind, hst, hv]
+    rfl
+
+/-- the counting loop on a section without data stops at once: the first fabricated entry is DT_NULL -/
+theorem numLoop_nodata (a : DynAcc) (hs : Settled a.sec) (hd : a.sec.data = none) (fuel : Nat) (prev : BitVec 64) :
+    numLoop fuel a 0 prev = .ok (a, 0) := by
+  cases fuel with
+  | zero => rfl
+  | succ n =>
+    unfold numLoop
+    by_cases hl : dyn_num_loop 0 a.cache = true
+    · have hc : ¬ a.cache.toNat ≤ (0 : BitVec 64).toNat := by
+        simp only [dyn_num_loop, BitVec.ult, decide_eq_true_eq] at hl
+        omega
+      simp only [hl, if_true, getEntryCore_nodata a hs hd, hc, if_false, bind, Except.bind, GetRes.tagOr]
+      have : dyn_num_tag_is_null 0 = true := by decide
+      simp only [this, if_true]; rfl
+    · simp only [hl, Bool.false_eq_true, if_false]; rfl
+
+/-- what the dynamic accessor reports on a section without data: one entry if the header promises at least one
+    record of the class's size, none otherwise -/
+def fabCount (a : DynAcc) : BitVec 64 :=
+  if dyn_num_recompute 0 a.sec.entSize a.needed then
+    dyn_num_clamp (dyn_num_total a.sec.size a.sec.entSize) 0
+  else 0
+
+theorem entriesNum_nodata (a : DynAcc) (hs : Settled a.sec) (hd : a.sec.data = none) (hc : a.cache = 0) :
+    a.entriesNum = .ok ({ a with cache := fabCount a }, fabCount a) := by
+  obtain ⟨cfg, sec, str, cache⟩ := a
+  simp only at hc hs hd
+  subst hc
+  unfold entriesNum fabCount
+  by_cases hr : dyn_num_recompute 0 sec.entSize (DynAcc.needed ⟨cfg, sec, str, 0⟩) = true
+  · have hne : sec.entSize ≠ 0 := by
+      intro e
+      rw [e] at hr
+      revert hr; simp [dyn_num_recompute]
+    simp only [hr, if_true, hne, if_false, DynTie.i_init]
+    have := numLoop_nodata ⟨cfg, sec, str, dyn_num_total sec.size sec.entSize⟩ hs hd
+      (dyn_num_total sec.size sec.entSize).toNat dyn_num_tag_init
+    simp only [this, bind, Except.bind]
+    rfl
+  · simp only [hr, Bool.false_eq_true, if_false]
+    rfl
+
+theorem fabCount_le (a : DynAcc) : (fabCount a).toNat ≤ 1 := by
+  unfold fabCount
+  split
+  · simp only [dyn_num_clamp]
+    split
+    · decide
+    · rename_i h
+      simp only [BitVec.ult, decide_eq_true_eq, Decidable.not_not] at h
+      have : ((0 : BitVec 64) + BitVec.signExtend 64 1#32).toNat = 1 := by decide
+      omega
+  · decide
+
+theorem getEntry_nodata (a : DynAcc) (hs : Settled a.sec) (hd : a.sec.data = none) (hc : a.cache = 0) (idx : BitVec 64) :
+    a.getEntry idx = .ok ({ a with cache := fabCount a },
+      if (fabCount a).toNat ≤ idx.toNat then .invalid else .ok 0 0 []) := by
+  unfold getEntry
+  simp only [entriesNum_nodata a hs hd hc, bind, Except.bind]
+  exact getEntryCore_nodata { a with cache := fabCount a } hs hd _ _
+
+/-! #### a linked string section without data answers like no string section -/
+
+/-- replace the string section of the accessor a computation returns -/
+def putStr {α : Type} (s : Option SecBuf) (x : M (DynAcc × α)) : M (DynAcc × α) :=
+  match x with
+  | .ok (a, r) => .ok ({ a with str := s }, r)
+  | .error e => .error e
+
+theorem getString_nodata (s0 : SecBuf) (hs : Settled s0) (hd : s0.data = none) (idx : BitVec 32) :
+    DynAcc.getString (some s0) idx = .ok (some s0, none) := by
+  unfold DynAcc.getString
+  simp only [getData_of_settled hs, hd, dynstr_get_oob, Option.isNone_none, Bool.or_true, if_true]
+  rfl
+
+theorem getEntryCore_str (a : DynAcc) (s0 : SecBuf) (hs : Settled s0) (hd : s0.data = none) (h : a.str = some s0)
+    (count idx : BitVec 64) :
+    getEntryCore a count idx = putStr (some s0) (getEntryCore { a with str := none } count idx) := by
+  obtain ⟨cfg, sec, str, cache⟩ := a
+  simp only at h
+  subst h
+  unfold getEntryCore
+  by_cases g0 : dyn_get_index_invalid idx count = true
+  · simp only [g0, if_true]; rfl
+  · simp only [g0, Bool.false_eq_true, if_false]
+    cases hraw : rawEntryOn (dyn_get_is32 (classByte cfg.cls)) cfg.enc sec.getData idx with
+    | error e => simp only [bind, Except.bind, putStr]
+    | ok tv =>
+      obtain ⟨tag, value⟩ := tv
+      simp only [bind, Except.bind]
+      by_cases hst : dyn_get_is_string_tag tag = true
+      · simp only [hst, if_true]
+        rw [getString_nodata s0 hs hd]
+        simp only [DynAcc.getString, pure, Except.pure, bind, Except.bind,
+          Option.isNone_none, dyn_get_string_null, putStr, if_true]
+      · simp only [hst, Bool.false_eq_true, if_false, pure, Except.pure, putStr]
+
+theorem getEntryCore_keeps_none (a : DynAcc) (h : a.str = none) (count idx : BitVec 64) (a' : DynAcc) (r : GetRes)
+    (e : getEntryCore a count idx = .ok (a', r)) : a'.str = none := by
+  obtain ⟨cfg, sec, str, cache⟩ := a
+  simp only at h
+  subst h
+  unfold getEntryCore at e
+  by_cases g0 : dyn_get_index_invalid idx count = true
+  · simp only [g0, if_true, pure, Except.pure, Except.ok.injEq, Prod.mk.injEq] at e
+    rw [← e.1]
+  · simp only [g0, Bool.false_eq_true, if_false] at e
+    cases hraw : rawEntryOn (dyn_get_is32 (classByte cfg.cls)) cfg.enc sec.getData idx with
+    | error er => rw [hraw] at e; cases e
+    | ok tv =>
+      obtain ⟨tag, value⟩ := tv
+      rw [hraw] at e
+      simp only [bind, Except.bind] at e
+      by_cases hst : dyn_get_is_string_tag tag = true
+      · simp only [hst, if_true, DynAcc.getString, pure, Except.pure, bind, Except.bind, Option.isNone_none,
+          dyn_get_string_null, Except.ok.injEq, Prod.mk.injEq] at e
+        rw [← e.1]
+      · simp only [hst, Bool.false_eq_true, if_false, pure, Except.pure, Except.ok.injEq, Prod.mk.injEq] at e
+        rw [← e.1]
+
+theorem str_none_eta (a : DynAcc) (h : a.str = none) : ({ a with str := none } : DynAcc) = a := by
+  cases a; simp only at h; subst h; rfl
+
+theorem numLoop_str (s0 : SecBuf) (hs : Settled s0) (hd : s0.data = none) :
+    ∀ (fuel : Nat) (a : DynAcc) (i prev : BitVec 64), a.str = some s0 →
+      numLoop fuel a i prev = putStr (some s0) (numLoop fuel { a with str := none } i prev) ∧
+      ∀ a' j, numLoop fuel { a with str := none } i prev = .ok (a', j) → a'.str = none := by
+  intro fuel
+  induction fuel with
+  | zero =>
+    intro a i prev h
+    refine ⟨?_, ?_⟩
+    · cases a; simp only at h; subst h; rfl
+    · intro a' j e
+      simp only [numLoop, pure, Except.pure, Except.ok.injEq, Prod.mk.injEq] at e
+      rw [← e.1]
+  | succ n ih =>
+    intro a i prev h
+    unfold numLoop
+    by_cases hl : dyn_num_loop i a.cache = true
+    · simp only [hl, if_true]
+      rw [getEntryCore_str a s0 hs hd h]
+      cases hg : getEntryCore { a with str := none } a.cache i with
+      | error e => exact ⟨by simp only [putStr, bind, Except.bind], fun a' j e' => by simp [bind, Except.bind] at e'⟩
+      | ok ar =>
+        obtain ⟨a1, r⟩ := ar
+        have h1 : a1.str = none := getEntryCore_keeps_none _ rfl _ _ _ _ hg
+        simp only [putStr, bind, Except.bind]
+        by_cases hz : dyn_num_tag_is_null (r.tagOr prev) = true
+        · simp only [hz, if_true, pure, Except.pure, putStr]
+          refine ⟨trivial, ?_⟩
+          intro a' j e
+          simp only [Except.ok.injEq, Prod.mk.injEq] at e
+          rw [← e.1]; exact h1
+        · simp only [hz, Bool.false_eq_true, if_false]
+          obtain ⟨ih1, ih2⟩ := ih { a1 with str := some s0 } (dyn_num_i_incr i) (r.tagOr prev) rfl
+          have he : ({ ({ a1 with str := some s0 } : DynAcc) with str := none } : DynAcc) = a1 := by
+            cases a1; simp only at h1; subst h1; rfl
+          rw [he] at ih1 ih2
+          exact ⟨ih1, ih2⟩
+    · simp only [hl, Bool.false_eq_true, if_false, pure, Except.pure, putStr]
+      refine ⟨?_, ?_⟩
+      · cases a; simp only at h; subst h; rfl
+      · intro a' j e
+        simp only [Except.ok.injEq, Prod.mk.injEq] at e
+        rw [← e.1]
+
+theorem entriesNum_str (a : DynAcc) (s0 : SecBuf) (hs : Settled s0) (hd : s0.data = none) (h : a.str = some s0) :
+    a.entriesNum = putStr (some s0) (DynAcc.entriesNum { a with str := none }) ∧
+    ∀ a' n, DynAcc.entriesNum { a with str := none } = .ok (a', n) → a'.str = none := by
+  obtain ⟨cfg, sec, str, cache⟩ := a
+  simp only at h
+  subst h
+  unfold entriesNum
+  have hn : DynAcc.needed ⟨cfg, sec, some s0, cache⟩ = DynAcc.needed ⟨cfg, sec, none, cache⟩ := rfl
+  by_cases hr : dyn_num_recompute cache sec.entSize (DynAcc.needed ⟨cfg, sec, none, cache⟩) = true
+  · simp only [hn, hr, if_true]
+    by_cases hz : sec.entSize = 0
+    · simp only [hz, if_true]
+      exact ⟨rfl, fun a' n e => by cases e⟩
+    · simp only [hz, if_false]
+      obtain ⟨l1, l2⟩ := numLoop_str s0 hs hd (dyn_num_total sec.size sec.entSize).toNat
+        ⟨cfg, sec, some s0, dyn_num_total sec.size sec.entSize⟩ dyn_num_i_init dyn_num_tag_init rfl
+      rw [l1]
+      cases hl : numLoop (dyn_num_total sec.size sec.entSize).toNat
+          ⟨cfg, sec, none, dyn_num_total sec.size sec.entSize⟩ dyn_num_i_init dyn_num_tag_init with
+      | error e =>
+        have hl' : numLoop (dyn_num_total sec.size sec.entSize).toNat
+            { (⟨cfg, sec, some s0, dyn_num_total sec.size sec.entSize⟩ : DynAcc) with str := none }
+            dyn_num_i_init dyn_num_tag_init = .error e := hl
+        simp only [hl', putStr, bind, Except.bind]
+        exact ⟨trivial, fun a' n e' => by cases e'⟩
+      | ok aj =>
+        obtain ⟨a2, j⟩ := aj
+        have hl' : numLoop (dyn_num_total sec.size sec.entSize).toNat
+            { (⟨cfg, sec, some s0, dyn_num_total sec.size sec.entSize⟩ : DynAcc) with str := none }
+            dyn_num_i_init dyn_num_tag_init = .ok (a2, j) := hl
+        have h2 := l2 a2 j hl'
+        simp only [hl', putStr, bind, Except.bind, pure, Except.pure]
+        refine ⟨trivial, ?_⟩
+        intro a' n e
+        simp only [Except.ok.injEq, Prod.mk.injEq] at e
+        rw [← e.1]; exact h2
+  · simp only [hn, hr, Bool.false_eq_true, if_false, pure, Except.pure, putStr]
+    refine ⟨trivial, ?_⟩
+    intro a' n e
+    simp only [Except.ok.injEq, Prod.mk.injEq] at e
+    rw [← e.1]
+
+theorem getEntry_str (a : DynAcc) (s0 : SecBuf) (hs : Settled s0) (hd : s0.data = none) (h : a.str = some s0)
+    (idx : BitVec 64) :
+    a.getEntry idx = putStr (some s0) (DynAcc.getEntry { a with str := none } idx) := by
+  obtain ⟨e1, e2⟩ := entriesNum_str a s0 hs hd h
+  unfold getEntry
+  rw [e1]
+  cases hn : DynAcc.entriesNum { a with str := none } with
+  | error e => simp only [putStr, bind, Except.bind]
+  | ok an =>
+    obtain ⟨a1, n⟩ := an
+    have h1 := e2 a1 n hn
+    simp only [putStr, bind, Except.bind]
+    rw [getEntryCore_str { a1 with str := some s0 } s0 hs hd rfl]
+    have he : ({ ({ a1 with str := some s0 } : DynAcc) with str := none } : DynAcc) = a1 := by
+      cases a1; simp only at h1; subst h1; rfl
+    rw [he]
+    rfl
+
+end DynPrefix
 
 end ElfioVerif.LoadedTables
